@@ -14,7 +14,8 @@ T1_CAL = [
     "data:get_week_date_from_calendar_date", "data:get_week_date_from_ordinal_date",
 ]
 TICK = ["data:TimePoint._tick_over_day_of_month", "data:TimePoint._tick_over"]
-ADD_EXACT = [("data:TimePoint.__add__", r"\+(exact|week)$"), "data:Duration.__mul__",
+ADD_EXACT = [("data:TimePoint.__add__", r"^(cal-hms|ord-hm|week-h)\+(exact|week)$"),
+             "data:Duration.__mul__",
              ("data:Duration.__add__", r"^(unit|week)-(unit|week)$")]
 REZONE = ["data:TimePoint.to_time_zone", "data:TimePoint.to_utc"]
 CAL_LEMMAS = ["opaque.dby.step", "opaque.dby.range", "cal.key.order", "ord.key.order",
